@@ -611,14 +611,32 @@ func (ex *Exec) binop(fr *Frame, site ssa.Instruction, op token.Token, t types.T
 			return tFMul(a, b)
 		case token.QUO:
 			return tFDiv(a, b)
-		case token.LSS:
-			return tFCmp("fp.lt", a, b)
-		case token.LEQ:
-			return tFCmp("fp.leq", a, b)
-		case token.GTR:
-			return tFCmp("fp.gt", a, b)
-		case token.GEQ:
-			return tFCmp("fp.geq", a, b)
+		case token.LSS, token.LEQ, token.GTR, token.GEQ:
+			// integral floats within +-2^53 (decoded JSON ids) compare as integers
+			if a.IntOf != nil || b.IntOf != nil {
+				if x, y, ok := intOfPair(a, b); ok {
+					switch op {
+					case token.LSS:
+						return tIntCmp("<", x, y)
+					case token.LEQ:
+						return tIntCmp("<=", x, y)
+					case token.GTR:
+						return tIntCmp(">", x, y)
+					default:
+						return tIntCmp(">=", x, y)
+					}
+				}
+			}
+			switch op {
+			case token.LSS:
+				return tFCmp("fp.lt", a, b)
+			case token.LEQ:
+				return tFCmp("fp.leq", a, b)
+			case token.GTR:
+				return tFCmp("fp.gt", a, b)
+			default:
+				return tFCmp("fp.geq", a, b)
+			}
 		}
 	case a.Sort == SBool:
 		switch op {
@@ -966,6 +984,9 @@ func (ex *Exec) conv(fr *Frame, site ssa.Instruction, dst, src types.Type, x Val
 			}
 			return newTerm("f64_to_f32", SF32, t)
 		case ds.isBV():
+			if t.IntOf != nil && ds == SBV64 {
+				return t.IntOf // exact: the float is an integer within +-2^53
+			}
 			return ex.floatToInt(t, ds, isSigned(dst), site)
 		}
 	case t.Sort == SStr:
@@ -1290,4 +1311,20 @@ func (ex *Exec) describePanic(v Value) string {
 		return "panic of " + i.t.String()
 	}
 	return "panic " + valString(v)
+}
+
+// intOfPair: both floats as exact integers (IntOf terms or integral constants), when possible.
+func intOfPair(a, b *Term) (*Term, *Term, bool) {
+	conv := func(t *Term) (*Term, bool) {
+		if t.IntOf != nil {
+			return t.IntOf, true
+		}
+		if f, ok := t.F64Val(); ok && f == float64(int64(f)) && f < 9.3e18 && f > -9.3e18 {
+			return mkInt(int64(f)), true
+		}
+		return nil, false
+	}
+	x, ok1 := conv(a)
+	y, ok2 := conv(b)
+	return x, y, ok1 && ok2
 }
